@@ -29,7 +29,14 @@ theorem elems_end_to_end (g : Globals) (hg : g.dialect = .mysql) (rc : Bool)
         ∃ R, Abs.Idx.execAll tbO.idxs (ss.filterMap idxStmt) = some R ∧ R.Perm tbN.idxs) ∧
       ((Table.walkFk t true [] td.fks).filterMap fkStmt = Abs.Idx.emitKeep tbN.fks tbO.fks ∧
         ((∀ s ∈ tbN.fks, ∀ o ∈ tbO.fks, s.name = o.name → s = o) →
-          ∃ R, Abs.Idx.execAll tbO.fks ((Table.walkFk t true [] td.fks).filterMap fkStmt) = some R ∧ R.Perm tbN.fks)) := by
+          ∃ R, Abs.Idx.execAll tbO.fks ((Table.walkFk t true [] td.fks).filterMap fkStmt) = some R ∧ R.Perm tbN.fks)) ∧
+      -- the down direction (C02): from the new lists back to the old ones
+      (∃ ss, Table.walkIdx g t false [] td.idxs = .ok ss ∧
+        ss.filterMap idxStmt = Abs.Idx.emitDown tbN.idxs tbO.idxs ∧
+        ∃ R, Abs.Idx.execAll tbN.idxs (ss.filterMap idxStmt) = some R ∧ R.Perm tbO.idxs) ∧
+      ((Table.walkFk t false [] td.fks).filterMap fkStmt = Abs.Idx.emitDownKeep tbN.fks tbO.fks ∧
+        ((∀ s ∈ tbN.fks, ∀ o ∈ tbO.fks, s.name = o.name → s = o) →
+          ∃ R, Abs.Idx.execAll tbN.fks ((Table.walkFk t false [] td.fks).filterMap fkStmt) = some R ∧ R.Perm tbO.fks)) := by
   -- both sides loaded: related to their reference schemas, slices included
   unfold loadAndDiff at hd
   obtain ⟨o, hlo, hd⟩ := bind_ok hd
@@ -106,7 +113,7 @@ theorem elems_end_to_end (g : Globals) (hg : g.dialect = .mysql) (rc : Bool)
     show ((fkSpecOf ot.fks).map (fun s : FkSpec => s.name)).Nodup
     rw [fkSpecOf_names]
     exact hi_o.fks.nodup
-  refine ⟨td, htd_mem, hname, by rw [htdeq], ?_, ?_⟩
+  refine ⟨td, htd_mem, hname, by rw [htdeq], ?_, ?_, ?_, ?_⟩
   · obtain ⟨ss, hw, hproj⟩ := Table.walkIdx_refines g t tn ot hlin hlio
     rw [htdi, hidx]
     rw [hvin, hvio] at hproj
@@ -120,5 +127,18 @@ theorem elems_end_to_end (g : Globals) (hg : g.dialect = .mysql) (rc : Bool)
     intro hnr
     rw [hproj]
     exact Abs.Idx.emitKeep_correct tbN.fks tbO.fks hNf hOf hnr
+  · obtain ⟨ss, hw, hproj⟩ := Table.walkIdx_refines_down g t tn ot hlin hlio
+    rw [htdi, hidx]
+    rw [hvin, hvio] at hproj
+    refine ⟨ss, hw, hproj, ?_⟩
+    rw [hproj]
+    exact Abs.Idx.emitDown_correct tbN.idxs tbO.idxs hNn hOn
+  · have hproj := Table.walkFk_refines_down t tn ot hfn'.1.fks
+    rw [hvfn, hvfo] at hproj
+    rw [htdf, hfks]
+    refine ⟨hproj, ?_⟩
+    intro hnr
+    rw [hproj]
+    exact Abs.Idx.emitDownKeep_correct tbN.fks tbO.fks hNf hOf hnr
 
 end Sqlize
